@@ -234,7 +234,61 @@ pub proof fn lemma_cg_dfs_exit<N, E>(g: DiGraph<N, E>, d: petgraph::Direction, r
     lemma_cg_closed_contains_reach(g, d, root, vis);
 }
 
-/// the two finished searches and the (assumed) intersection step give the property's set
+/// the collecting loop at its exit has computed the tid image of the intersection of the two edge sets
+pub proof fn lemma_cg_collected_common<'a, N>(g: DiGraph<N, &'a Term<Jmp>>, s: Set<EdgeIndex>, it: Seq<&EdgeIndex>,
+                                              a: Set<EdgeIndex>, b: Set<EdgeIndex>, r: Set<Tid>)
+    requires
+        cg_iter_ok(s, it),
+        cg_covers(s, a, b),
+        cg_collected(g, it, it.len() as int, a, b, r),
+    ensures
+        cg_common_tids(g, a, b, r),
+{
+    assert forall |t: Tid| #[trigger] r.contains(t) <==>
+        exists |e: EdgeIndex| a.contains(e) && b.contains(e) && t == (#[trigger] g.edge_weight(e.i as int)).tid by {
+        if r.contains(t) {
+            let k = choose |k: int| k < it.len() && #[trigger] cg_hit(g, it, k, a, b, t);
+            let e = *it[k];
+            assert(a.contains(e) && b.contains(e) && t == g.edge_weight(e.i as int).tid);
+        }
+        if exists |e: EdgeIndex| a.contains(e) && b.contains(e) && t == (#[trigger] g.edge_weight(e.i as int)).tid {
+            let e = choose |e: EdgeIndex| a.contains(e) && b.contains(e) && t == (#[trigger] g.edge_weight(e.i as int)).tid;
+            assert(s.contains(e));
+            let k = choose |k: int| 0 <= k < it.len() && *#[trigger] it[k] == e;
+            assert(cg_hit(g, it, k, a, b, t));
+        }
+    }
+}
+
+/// one step of the collecting loop: entry `idx` was a hit and its tid `x` was inserted / was no hit and nothing changed
+pub proof fn lemma_cg_collected_step<'a, N>(g: DiGraph<N, &'a Term<Jmp>>, it: Seq<&EdgeIndex>, idx: int,
+                                            a: Set<EdgeIndex>, b: Set<EdgeIndex>, r0: Set<Tid>, r1: Set<Tid>)
+    requires
+        0 <= idx < it.len(),
+        cg_collected(g, it, idx, a, b, r0),
+        r1 == (if a.contains(*it[idx]) && b.contains(*it[idx]) { r0.insert(g.edge_weight((*it[idx]).i as int).tid) } else { r0 }),
+    ensures
+        cg_collected(g, it, idx + 1, a, b, r1),
+{
+    assert forall |t: Tid| #[trigger] r1.contains(t) <==> exists |k: int| k < idx + 1 && #[trigger] cg_hit(g, it, k, a, b, t) by {
+        if r1.contains(t) {
+            if r0.contains(t) {
+                let k = choose |k: int| k < idx && #[trigger] cg_hit(g, it, k, a, b, t);
+                assert(k < idx + 1 && cg_hit(g, it, k, a, b, t));
+            } else {
+                assert(cg_hit(g, it, idx, a, b, t));
+            }
+        }
+        if exists |k: int| k < idx + 1 && #[trigger] cg_hit(g, it, k, a, b, t) {
+            let k = choose |k: int| k < idx + 1 && #[trigger] cg_hit(g, it, k, a, b, t);
+            if k < idx {
+                assert(r0.contains(t));
+            }
+        }
+    }
+}
+
+/// the two finished searches and the intersection step give the property's set
 pub proof fn lemma_cg_result<'a, N>(g: DiGraph<N, &'a Term<Jmp>>, s: NodeIndex, t: NodeIndex,
                                     v1: Set<NodeIndex>, e1: Set<EdgeIndex>, v2: Set<NodeIndex>, e2: Set<EdgeIndex>, r: Set<Tid>)
     requires
